@@ -172,6 +172,17 @@ func (g *vcgen) lin(v ssa.Value) string {
 			if isInt, _, _ := intInfo(x.Type()); isInt && !uns {
 				return "(" + g.lin(x.X) + " - " + g.lin(x.Y) + ")"
 			}
+			if isInt, _, _ := intInfo(x.Type()); isInt && uns && bits <= 64 {
+				// unsigned subtraction wraps: `uint(d)-1 >= 10` as a one-comparison range check
+				a := g.atom(v)
+				X, Y := g.lin(x.X), g.lin(x.Y)
+				p := "18446744073709551616"
+				if bits < 64 {
+					p = fmt.Sprintf("%d", uint64(1)<<uint(bits))
+				}
+				g.hyp("(" + Y + " ≤ " + X + " ∧ " + a + " = " + X + " - " + Y + ") ∨ (" + X + " < " + Y + " ∧ " + a + " = " + X + " - " + Y + " + " + p + ")")
+				return a
+			}
 		case token.MUL:
 			if c, ok := constInt(x.Y); ok && !uns {
 				return "(" + lit(c) + " * " + g.lin(x.X) + ")"
@@ -229,6 +240,36 @@ func (g *vcgen) lin(v ssa.Value) string {
 		return g.atom(v)
 	case *ssa.ChangeType:
 		return g.lin(x.X)
+	case *ssa.UnOp:
+		// an integer loaded from a table (array / struct / array of structs, local or package-level) into which nothing but
+		// integer constants is ever stored: the value lies between the smallest and the largest of them (0 included: untouched
+		// elements are zero)
+		if x.Op == token.MUL {
+			if isInt, _, _ := intInfo(x.Type()); isInt {
+				if lo, hi, hiKnown, ok := tableRange(x.X, ""); ok {
+					a := g.atom(v)
+					g.hyp(lit(lo) + " ≤ " + a)
+					if hiKnown {
+						g.hyp(a + " ≤ " + lit(hi))
+					}
+					return a
+				}
+			}
+		}
+		return g.atom(v)
+	case *ssa.Field:
+		// field of a struct value that was loaded as a whole from such a table (for _, f := range fields { … f.width … })
+		if isInt, _, _ := intInfo(x.Type()); isInt {
+			if lo, hi, hiKnown, ok := valueRange(x, ""); ok {
+				a := g.atom(v)
+				g.hyp(lit(lo) + " ≤ " + a)
+				if hiKnown {
+					g.hyp(a + " ≤ " + lit(hi))
+				}
+				return a
+			}
+		}
+		return g.atom(v)
 	case *ssa.Call:
 		if b, ok := x.Call.Value.(*ssa.Builtin); ok && len(x.Call.Args) == 1 {
 			switch b.Name() {
@@ -728,4 +769,193 @@ func leanIdent(s string) string {
 		}
 	}
 	return b.String()
+}
+
+
+// addrPath: base object (an Alloc or a Global) and the field path (array indexing dropped) of an address expression
+func addrPath(v ssa.Value) (base ssa.Value, path string, ok bool) {
+	for i := 0; i < 8; i++ {
+		switch x := v.(type) {
+		case *ssa.IndexAddr:
+			v = x.X
+		case *ssa.FieldAddr:
+			path = fmt.Sprintf(".%d", x.Field) + path
+			v = x.X
+		case *ssa.Alloc:
+			return x, path, true
+		case *ssa.Global:
+			return x, path, true
+		default:
+			return nil, "", false
+		}
+	}
+	return nil, "", false
+}
+
+// vcAllFns: every analysed function (filled by analyse); used to make sure a package-level table is written during
+// initialisation only
+var vcAllFns []*ssa.Function
+
+var tableDepth int
+
+// valueRange: the range of the integer found at field path `rest` inside the aggregate VALUE v (a struct or array that
+// was loaded as a whole, an element of such an array value, a field of such a struct value)
+func valueRange(v ssa.Value, rest string) (lo, hi int64, hiKnown bool, ok bool) {
+	for i := 0; i < 6; i++ {
+		switch x := v.(type) {
+		case *ssa.UnOp:
+			if x.Op != token.MUL {
+				return 0, 0, false, false
+			}
+			return tableRange(x.X, rest)
+		case *ssa.Index:
+			v = x.X // an element of an array value: any element
+		case *ssa.Field:
+			rest = fmt.Sprintf(".%d", x.Field) + rest
+			v = x.X
+		default:
+			return 0, 0, false, false
+		}
+	}
+	return 0, 0, false, false
+}
+
+// tableRange: see the UnOp case of lin
+func tableRange(addr ssa.Value, extra string) (lo, hi int64, hiKnown bool, ok bool) {
+	hiKnown = true
+	base, path, ok := addrPath(addr)
+	if !ok {
+		return 0, 0, false, false
+	}
+	path += extra
+	var fns []*ssa.Function
+	switch b := base.(type) {
+	case *ssa.Alloc:
+		// the table must stay inside the function: its address is only indexed / selected, loaded from and stored into
+		if b.Referrers() == nil {
+			return 0, 0, false, false
+		}
+		var walk func(v ssa.Value, depth int) bool
+		walk = func(v ssa.Value, depth int) bool {
+			refs := v.Referrers()
+			if refs == nil || depth > 6 {
+				return depth <= 6
+			}
+			for _, r := range *refs {
+				switch y := r.(type) {
+				case *ssa.IndexAddr:
+					if y.X != v || !walk(y, depth+1) {
+						return false
+					}
+				case *ssa.FieldAddr:
+					if !walk(y, depth+1) {
+						return false
+					}
+				case *ssa.UnOp:
+					if y.Op != token.MUL {
+						return false
+					}
+					// loading a whole element / the whole table by value is fine (a copy); loading a pointer out of it is not tracked
+					if pointerLike(y.Type()) {
+						continue
+					}
+				case *ssa.Store:
+					if y.Addr != v {
+						return false // the address itself is stored somewhere
+					}
+				case *ssa.DebugRef:
+				case *ssa.Slice:
+					return false
+				default:
+					return false
+				}
+			}
+			return true
+		}
+		if !walk(b, 0) {
+			return 0, 0, false, false
+		}
+		fns = []*ssa.Function{b.Parent()}
+	case *ssa.Global:
+		fns = vcAllFns
+	}
+	seen := false
+	for _, f := range fns {
+		if f == nil {
+			continue
+		}
+		isInit := f.Name() == "init" || strings.HasPrefix(f.Name(), "init#")
+		for _, blk := range f.Blocks {
+			for _, ins := range blk.Instrs {
+				st, isStore := ins.(*ssa.Store)
+				if !isStore {
+					continue
+				}
+				b2, p2, ok2 := addrPath(st.Addr)
+				if !ok2 || b2 != base {
+					continue
+				}
+				if _, isGlobal := base.(*ssa.Global); isGlobal && !isInit {
+					return 0, 0, false, false // written outside initialisation
+				}
+				if p2 != path {
+					if strings.HasPrefix(path, p2) {
+						// a whole element / struct is stored over the field (composite literals are built in a temporary and
+						// copied in): the field's value is whatever that temporary holds there
+						if tableDepth < 4 {
+							tableDepth++
+							l2, h2, hk2, ok2 := valueRange(st.Val, path[len(p2):])
+							tableDepth--
+							if ok2 {
+								if !seen || l2 < lo {
+									lo = l2
+								}
+								if !seen || h2 > hi {
+									hi = h2
+								}
+								if !hk2 {
+									hiKnown = false
+								}
+								seen = true
+								continue
+							}
+						}
+						return 0, 0, false, false
+					}
+					continue
+				}
+				c, isC := constInt(st.Val)
+				if !isC {
+					// len(x) / cap(x): non-negative, unbounded above
+					if call, isCall := st.Val.(*ssa.Call); isCall {
+						if bi, isB := call.Call.Value.(*ssa.Builtin); isB && (bi.Name() == "len" || bi.Name() == "cap") {
+							hiKnown = false
+							c = 0
+							isC = true
+						}
+					}
+				}
+				if !isC {
+					return 0, 0, false, false
+				}
+				if !seen || c < lo {
+					lo = c
+				}
+				if !seen || c > hi {
+					hi = c
+				}
+				seen = true
+			}
+		}
+	}
+	if !seen {
+		return 0, 0, false, false
+	}
+	if lo > 0 {
+		lo = 0
+	}
+	if hi < 0 {
+		hi = 0
+	}
+	return lo, hi, hiKnown, true
 }
